@@ -1,18 +1,24 @@
 //! C34 — staggered DNS lookups never panic and return the first success.
 //!
-//! Runs the REAL `DnsResolver::lookup_ipv{4,6}_staggered` (iroh-dns/src/dns.rs:
-//! `stagger_call`, `add_jitter`, `Inner::op`) with a scripted `DnsResolver::custom`
-//! resolver on a paused-time current-thread tokio runtime.
+//! Runs EVERY public staggered lookup of `DnsResolver` (iroh-dns/src/dns.rs: `stagger_call`,
+//! `add_jitter`, `Inner::op`) with a scripted `DnsResolver::custom` resolver on a paused-time
+//! current-thread tokio runtime.  `<kind>` selects the entry point:
+//!   `v4` `lookup_ipv4_staggered`, `v6` `lookup_ipv6_staggered`,
+//!   `both` `lookup_ipv4_ipv6_staggered` (every attempt issues an IPv4 and an IPv6 lookup —
+//!          two scripts per attempt, in resolver-call order — and ends when both have ended),
+//!   `txtn` `lookup_endpoint_by_domain_name_staggered`, `txti` `lookup_endpoint_by_id_staggered`
+//!          (TXT lookups with the fixed `DNS_TIMEOUT`; the `tmo` token is ignored; a script
+//!          result `bad` is a TXT answer that does not parse).
 //!
 //! payloads
 //!   `jit <d> <r>`                              the jitter arithmetic alone (hook `verif_hooks::add_jitter`,
 //!                                              random value `r` injected through `set_jitter_source`)
-//!   `stag <v4|v6> <tmo> <H> <delays> <scripts>` staggered lookup, random values scripted:
+//!   `stag <kind> <tmo> <H> <delays> <scripts>`   staggered lookup, random values scripted:
 //!        delays  = `-` | `d:r,d:r,…`           stagger delays (ms) with the random value each draws
 //!        scripts = `D:res,…` (n+1 entries)     by resolver-call order: answer after `D` ms (`h` = never),
 //!                                              res = `ok` | `e<code>`
 //!        tmo = per-lookup timeout (ms); H = horizon (ms) after which the case is cut off (`pending`)
-//!   `real <v4|v6> <tmo> <H> <delays> <scripts>` the same through the unhooked `rand::random` source
+//!   `real <kind> <tmo> <H> <delays> <scripts>`   the same through the unhooked `rand::random` source
 //!        (delays = `-` | `d,d,…`); generated only for scenarios whose outcome does not depend on
 //!        the jitter values; times are not printed
 //! outputs
@@ -32,7 +38,7 @@ use std::sync::{Arc, Mutex};
 use std::task::{Context, Poll, Wake, Waker};
 use std::time::Duration;
 
-use iroh_dns::dns::{BoxIter, DnsError, DnsResolver, Resolver, StaggeredError, TxtRecordData, verif_hooks};
+use iroh_dns::dns::{BoxIter, DnsError, DnsResolver, LookupError, Resolver, StaggeredError, TxtRecordData, verif_hooks};
 use n0_error::{anyerr, e};
 use n0_future::boxed::BoxFuture;
 use tokio::time::Instant;
@@ -45,6 +51,8 @@ struct C34;
 #[derive(Clone, Debug, PartialEq)]
 enum Res {
     Ok,
+    /// TXT lookups only: an answer whose record is not `key=value`
+    Bad,
     Err(String),
 }
 
@@ -52,6 +60,7 @@ enum Res {
 struct Call {
     start_ns: u128,
     fam: u8,
+    host: String,
     outcome: Option<Res>,
     waker: Option<Waker>,
     delivered: bool,
@@ -72,12 +81,14 @@ struct CallFut {
 }
 
 impl Future for CallFut {
-    type Output = Result<usize, DnsError>;
+    /// `Ok((call index, well-formed))`
+    type Output = Result<(usize, bool), DnsError>;
     fn poll(self: Pin<&mut Self>, cx: &mut Context<'_>) -> Poll<Self::Output> {
         let mut sh = self.sh.lock().unwrap();
         let c = &mut sh.calls[self.k];
         match c.outcome.take() {
-            Some(Res::Ok) => Poll::Ready(Ok(self.k)),
+            Some(Res::Ok) => Poll::Ready(Ok((self.k, true))),
+            Some(Res::Bad) => Poll::Ready(Ok((self.k, false))),
             Some(Res::Err(code)) => Poll::Ready(Err(e!(DnsError::Resolve, anyerr!("{code}")))),
             None => {
                 c.waker = Some(cx.waker().clone());
@@ -88,33 +99,39 @@ impl Future for CallFut {
 }
 
 impl Scripted {
-    fn call(&self, fam: u8) -> CallFut {
+    fn call(&self, fam: u8, host: String) -> CallFut {
         let mut sh = self.0.lock().unwrap();
         let start_ns = (Instant::now() - sh.t0).as_nanos();
-        sh.calls.push(Call { start_ns, fam, outcome: None, waker: None, delivered: false });
+        sh.calls.push(Call { start_ns, fam, host, outcome: None, waker: None, delivered: false });
         CallFut { k: sh.calls.len() - 1, sh: self.0.clone() }
     }
 }
 
 impl Resolver for Scripted {
-    fn lookup_ipv4(&self, _host: String) -> BoxFuture<Result<BoxIter<Ipv4Addr>, DnsError>> {
-        let f = self.call(4);
+    fn lookup_ipv4(&self, host: String) -> BoxFuture<Result<BoxIter<Ipv4Addr>, DnsError>> {
+        let f = self.call(4, host);
         Box::pin(async move {
-            let k = f.await?;
+            let (k, _) = f.await?;
             let it: BoxIter<Ipv4Addr> = Box::new(vec![Ipv4Addr::new(10, 0, (k >> 8) as u8, k as u8)].into_iter());
             Ok(it)
         })
     }
-    fn lookup_ipv6(&self, _host: String) -> BoxFuture<Result<BoxIter<Ipv6Addr>, DnsError>> {
-        let f = self.call(6);
+    fn lookup_ipv6(&self, host: String) -> BoxFuture<Result<BoxIter<Ipv6Addr>, DnsError>> {
+        let f = self.call(6, host);
         Box::pin(async move {
-            let k = f.await?;
+            let (k, _) = f.await?;
             let it: BoxIter<Ipv6Addr> = Box::new(vec![Ipv6Addr::new(0xfd00, 0, 0, 0, 0, 0, 0, k as u16)].into_iter());
             Ok(it)
         })
     }
-    fn lookup_txt(&self, _host: String) -> BoxFuture<Result<BoxIter<TxtRecordData>, DnsError>> {
-        Box::pin(async { Err(e!(DnsError::NoResponse)) })
+    fn lookup_txt(&self, host: String) -> BoxFuture<Result<BoxIter<TxtRecordData>, DnsError>> {
+        let f = self.call(16, host);
+        Box::pin(async move {
+            let (k, good) = f.await?;
+            let record = if good { format!("addr=10.0.{}.{}:4433", k >> 8, k & 255) } else { "nonsense".to_string() };
+            let rec: TxtRecordData = vec![record.into_bytes().into_boxed_slice()].into();
+            Ok(Box::new(std::iter::once(rec)) as BoxIter<TxtRecordData>)
+        })
     }
     fn clear_cache(&self) {}
     fn reset(&self) -> Box<dyn Resolver> {
@@ -142,10 +159,26 @@ impl Wake for Flag {
 
 // ---------------------------------------------------------------- scenario
 
+#[derive(Debug, Clone, Copy, PartialEq)]
+enum Kind {
+    V4,
+    V6,
+    Both,
+    TxtName,
+    TxtId,
+}
+
+impl Kind {
+    /// resolver lookups issued by one attempt
+    fn per_attempt(self) -> usize {
+        if self == Kind::Both { 2 } else { 1 }
+    }
+}
+
 #[derive(Debug, Clone)]
 struct Scenario {
     scripted_rng: bool,
-    v6: bool,
+    kind: Kind,
     tmo: u64,
     horizon: u64,
     delays: Vec<u64>,
@@ -154,8 +187,19 @@ struct Scenario {
 }
 
 fn parse_scenario(toks: &[&str], scripted_rng: bool) -> Scenario {
-    let v6 = toks[0] == "v6";
-    let tmo: u64 = toks[1].parse().expect("tmo");
+    let kind = match toks[0] {
+        "v4" => Kind::V4,
+        "v6" => Kind::V6,
+        "both" => Kind::Both,
+        "txtn" => Kind::TxtName,
+        "txti" => Kind::TxtId,
+        other => panic!("bad kind {other}"),
+    };
+    let tmo: u64 = match kind {
+        // the endpoint-info lookups use the crate's fixed timeout
+        Kind::TxtName | Kind::TxtId => iroh_dns::dns::DNS_TIMEOUT.as_millis() as u64,
+        _ => toks[1].parse().expect("tmo"),
+    };
     let horizon: u64 = toks[2].parse().expect("H");
     let mut delays = vec![];
     let mut rs = vec![];
@@ -174,15 +218,20 @@ fn parse_scenario(toks: &[&str], scripted_rng: bool) -> Scenario {
     for it in toks[4].split(',') {
         let (d, r) = it.split_once(':').expect("D:res");
         let d = if d == "h" { None } else { Some(d.parse().expect("D")) };
-        let r = if r == "ok" { Res::Ok } else { Res::Err(r.to_string()) };
+        let r = match r {
+            "ok" => Res::Ok,
+            "bad" => Res::Bad,
+            _ => Res::Err(r.to_string()),
+        };
         scripts.push((d, r));
     }
-    Scenario { scripted_rng, v6, tmo, horizon, delays, rs, scripts }
+    Scenario { scripted_rng, kind, tmo, horizon, delays, rs, scripts }
 }
 
 #[derive(Debug)]
 enum Outcome {
-    Ok(usize),
+    /// resolver calls whose answers make up the returned value
+    Ok(Vec<usize>),
     Err(Vec<String>),
     Pending,
 }
@@ -191,20 +240,41 @@ struct Run {
     starts_ms: Vec<u64>,
     unaligned: bool,
     wrong_family: bool,
+    wrong_name: Option<String>,
     outcome: Outcome,
     end_ms: u64,
     /// (time, call, result) in the order the harness delivered scripted answers
     delivered: Vec<(u64, usize, Res)>,
-    /// an `ok` answer was delivered and the lookup did not return in the same instant
-    ok_not_returned: bool,
 }
 
 fn err_code(e: &DnsError) -> String {
     match e {
         DnsError::Timeout { .. } => "to".into(),
         DnsError::Resolve { source, .. } => source.to_string(),
+        DnsError::ResolveBoth { ipv4, ipv6, .. } => format!("B:{}/{}", err_code(ipv4), err_code(ipv6)),
         other => format!("other({other})"),
     }
+}
+
+fn lookup_err_code(e: &LookupError) -> String {
+    match e {
+        LookupError::LookupFailed { source, .. } => err_code(source),
+        LookupError::ParseError { .. } => "parse".into(),
+        other => format!("other({other})"),
+    }
+}
+
+fn call_of_ip(ip: &IpAddr) -> usize {
+    match ip {
+        IpAddr::V4(a) => ((a.octets()[2] as usize) << 8) | a.octets()[3] as usize,
+        IpAddr::V6(a) => a.segments()[7] as usize,
+    }
+}
+
+const TXT_ORIGIN: &str = "example.test.";
+
+fn txt_endpoint_id() -> iroh_base::EndpointId {
+    iroh_base::SecretKey::from_bytes(&[7u8; 32]).public()
 }
 
 fn run_scenario(sc: &Scenario) -> Run {
@@ -239,18 +309,45 @@ fn run_scenario(sc: &Scenario) -> Run {
         let shared = Arc::new(Mutex::new(Shared { t0, calls: vec![] }));
         let resolver = DnsResolver::custom(Scripted(shared.clone()));
         let tmo = Duration::from_millis(sc.tmo);
-        type LookupResult = Result<Vec<IpAddr>, StaggeredError<DnsError>>;
-        let fut: Pin<Box<dyn Future<Output = LookupResult> + '_>> = if sc.v6 {
-            Box::pin(async { resolver.lookup_ipv6_staggered("h.test", tmo, &sc.delays).await.map(|i| i.collect()) })
-        } else {
-            Box::pin(async { resolver.lookup_ipv4_staggered("h.test", tmo, &sc.delays).await.map(|i| i.collect()) })
+        // every entry point is reduced to: the resolver calls that made up the value / the error codes
+        type LookupResult = Result<Vec<usize>, Vec<String>>;
+        let dns_errs = |e: StaggeredError<DnsError>| e.iter().map(err_code).collect::<Vec<_>>();
+        let lk_errs = |e: StaggeredError<LookupError>| e.iter().map(lookup_err_code).collect::<Vec<_>>();
+        let eid = txt_endpoint_id();
+        let txt_name = format!("{}.{}", eid.to_z32(), TXT_ORIGIN);
+        let fut: Pin<Box<dyn Future<Output = LookupResult> + '_>> = match sc.kind {
+            Kind::V4 => Box::pin(async {
+                resolver.lookup_ipv4_staggered("h.test", tmo, &sc.delays).await.map(|i| i.map(|ip| call_of_ip(&ip)).collect()).map_err(dns_errs)
+            }),
+            Kind::V6 => Box::pin(async {
+                resolver.lookup_ipv6_staggered("h.test", tmo, &sc.delays).await.map(|i| i.map(|ip| call_of_ip(&ip)).collect()).map_err(dns_errs)
+            }),
+            Kind::Both => Box::pin(async {
+                resolver.lookup_ipv4_ipv6_staggered("h.test", tmo, &sc.delays).await.map(|i| i.map(|ip| call_of_ip(&ip)).collect()).map_err(dns_errs)
+            }),
+            Kind::TxtName => Box::pin(async {
+                resolver
+                    .lookup_endpoint_by_domain_name_staggered(&txt_name, &sc.delays)
+                    .await
+                    .map(|info| info.ip_addrs().map(|a| call_of_ip(&a.ip())).collect())
+                    .map_err(lk_errs)
+            }),
+            Kind::TxtId => Box::pin(async {
+                resolver
+                    .lookup_endpoint_by_id_staggered(&eid, TXT_ORIGIN, &sc.delays)
+                    .await
+                    .map(|info| {
+                        assert_eq!(info.endpoint_id, eid);
+                        info.ip_addrs().map(|a| call_of_ip(&a.ip())).collect()
+                    })
+                    .map_err(lk_errs)
+            }),
         };
         let mut fut = pin!(tokio::task::unconstrained(fut));
         let flag = Arc::new(Flag { set: AtomicBool::new(true), main: Mutex::new(None) });
         let waker = Waker::from(flag.clone());
         let now_ms = || (Instant::now() - t0).as_millis() as u64;
         let mut delivered: Vec<(u64, usize, Res)> = vec![];
-        let mut ok_not_returned = false;
         let mut result: Option<LookupResult> = None;
         'outer: loop {
             // nothing after the horizon is observed
@@ -264,9 +361,6 @@ fn run_scenario(sc: &Scenario) -> Run {
                     result = Some(r);
                     break 'outer;
                 }
-            }
-            if delivered.iter().any(|d| d.2 == Res::Ok) {
-                ok_not_returned = true;
             }
             let now = now_ms();
             // phase 2: scripted answers that are due, one at a time, in (due, call) order
@@ -321,45 +415,122 @@ fn run_scenario(sc: &Scenario) -> Run {
         let sh = shared.lock().unwrap();
         let starts_ms = sh.calls.iter().map(|c| (c.start_ns / 1_000_000) as u64).collect();
         let unaligned = sh.calls.iter().any(|c| c.start_ns % 1_000_000 != 0);
-        let wrong_family = sh.calls.iter().any(|c| c.fam != if sc.v6 { 6 } else { 4 });
+        let wrong_family = sh.calls.iter().enumerate().any(|(k, c)| {
+            c.fam
+                != match sc.kind {
+                    Kind::V4 => 4,
+                    Kind::V6 => 6,
+                    Kind::Both => [4, 6][k % 2],
+                    Kind::TxtName | Kind::TxtId => 16,
+                }
+        });
+        let want_name = match sc.kind {
+            Kind::TxtName | Kind::TxtId => format!("_iroh.{}.{}", eid.to_z32(), TXT_ORIGIN),
+            _ => "h.test".to_string(),
+        };
+        let wrong_name = sh.calls.iter().find(|c| c.host != want_name).map(|c| c.host.clone());
         let outcome = match result {
             None => Outcome::Pending,
-            Some(Ok(addrs)) => {
-                let k = match addrs.first() {
-                    Some(IpAddr::V4(a)) => ((a.octets()[2] as usize) << 8) | a.octets()[3] as usize,
-                    Some(IpAddr::V6(a)) => a.segments()[7] as usize,
-                    None => usize::MAX,
-                };
-                Outcome::Ok(k)
-            }
-            Some(Err(err)) => Outcome::Err(err.iter().map(err_code).collect()),
+            Some(Ok(calls)) => Outcome::Ok(calls),
+            Some(Err(codes)) => Outcome::Err(codes),
         };
-        Run { starts_ms, unaligned, wrong_family, outcome, end_ms, delivered, ok_not_returned }
+        Run { starts_ms, unaligned, wrong_family, wrong_name, outcome, end_ms, delivered }
     })
+}
+
+/// (time, 0 = timer / 1 = delivery, delivery sequence)
+type Key = (u64, u8, usize);
+
+struct Ended {
+    key: Key,
+    ok_calls: Vec<usize>,
+    code: String,
+}
+
+/// When each attempt ended and how.  A lookup ends with the scripted answer the harness delivered
+/// (position in the delivery log) or with the per-lookup timeout; an attempt ends when all its
+/// lookups have (join!), succeeds if one of them did, and its value is made of the successful
+/// lookups.
+fn attempts_ended(sc: &Scenario, run: &Run) -> Vec<Ended> {
+    let per = sc.kind.per_attempt();
+    let lookup_end = |k: usize| -> Option<(Key, Option<String>)> {
+        if let Some((seq, (t, _, res))) = run.delivered.iter().enumerate().find(|(_, d)| d.1 == k) {
+            let err = match res {
+                Res::Ok => None,
+                Res::Bad => Some("parse".to_string()),
+                Res::Err(c) => Some(c.clone()),
+            };
+            return Some(((*t, 1, seq), err));
+        }
+        // nothing after the horizon is observed (a pending run is cut off just after it)
+        let limit = if matches!(run.outcome, Outcome::Pending) { sc.horizon } else { run.end_ms };
+        let t = run.starts_ms[k] + sc.tmo;
+        if t <= limit { Some(((t, 0, 0), Some("to".to_string()))) } else { None }
+    };
+    let mut ended: Vec<Ended> = vec![];
+    for a in 0..run.starts_ms.len() / per {
+        let ends: Vec<_> = (a * per..(a + 1) * per).map(lookup_end).collect();
+        if ends.iter().any(|e| e.is_none()) {
+            continue;
+        }
+        let ends: Vec<_> = ends.into_iter().map(|e| e.unwrap()).collect();
+        let key = ends.iter().map(|e| e.0).max().unwrap();
+        let ok_calls: Vec<usize> = (0..per).filter(|j| ends[*j].1.is_none()).map(|j| a * per + j).collect();
+        let code = if per == 2 {
+            format!("B:{}/{}", ends[0].1.clone().unwrap_or_default(), ends[1].1.clone().unwrap_or_default())
+        } else {
+            ends[0].1.clone().unwrap_or_default()
+        };
+        ended.push(Ended { key, ok_calls, code });
+    }
+    ended
+}
+
+/// Inside one millisecond the order of two *timer* events is the timer wheel's business.  It is
+/// observable in exactly one situation: a merged attempt becomes successful through a per-lookup
+/// timeout in the very millisecond in which another attempt's sleep may end (±20 % window).
+/// Harness and driver both report such a case as `tie-suspect`.
+fn tie_suspect(sc: &Scenario, run: &Run) -> bool {
+    if !matches!(run.outcome, Outcome::Ok(_)) {
+        return false;
+    }
+    let ended = attempts_ended(sc, run);
+    let Some(win) = ended.iter().filter(|e| !e.ok_calls.is_empty()).min_by_key(|e| e.key) else { return false };
+    let t = run.end_ms as u128;
+    win.key.1 == 0 && sc.delays.iter().any(|d| 5 * t.abs_diff(*d as u128) <= *d as u128)
 }
 
 /// Oracle: the statement of C34 evaluated on the observed behaviour (no reference to the model).
 fn oracle(sc: &Scenario, run: &Run, ex: &mut Exec) {
     let n = sc.delays.len();
+    let per = sc.kind.per_attempt();
     if run.unaligned {
         ex.violation("harness-unaligned-time", "a start time is not a whole millisecond");
     }
     if run.wrong_family {
-        ex.violation("wrong-family", "resolver was asked for the other address family");
+        ex.violation("wrong-family", "resolver was asked for the wrong record kind");
     }
+    if let Some(h) = &run.wrong_name {
+        ex.violation("wrong-name", format!("resolver was asked for `{h}`"));
+    }
+    // an attempt issues all its lookups at once
+    if run.starts_ms.len() % per != 0 || run.starts_ms.chunks(per).any(|c| c.iter().any(|t| *t != c[0])) {
+        ex.violation("attempt-lookups-not-together", format!("{:?}", run.starts_ms));
+    }
+    let attempt_starts: Vec<u64> = run.starts_ms.chunks(per).map(|c| c[0]).collect();
     // one attempt per delay plus one, never more
-    if run.starts_ms.len() > n + 1 {
-        ex.violation("too-many-attempts", format!("{} attempts for {} delays", run.starts_ms.len(), n));
+    if attempt_starts.len() > n + 1 {
+        ex.violation("too-many-attempts", format!("{} attempts for {} delays", attempt_starts.len(), n));
     }
     // one attempt immediately
-    if run.starts_ms.first().is_none_or(|t| *t != 0) {
-        ex.violation("no-immediate-attempt", format!("starts {:?}", run.starts_ms));
+    if attempt_starts.first().is_none_or(|t| *t != 0) {
+        ex.violation("no-immediate-attempt", format!("starts {:?}", attempt_starts));
     }
     // every later attempt within ±20 % of a distinct delay (interval/point matching: serve the
     // start times in ascending order with the unused delay whose window closes first)
     let within = |s: u64, d: u64| 5 * (s as u128).abs_diff(d as u128) <= d as u128;
     let mut unused: Vec<u64> = sc.delays.clone();
-    let mut starts: Vec<u64> = run.starts_ms.iter().skip(1).copied().collect();
+    let mut starts: Vec<u64> = attempt_starts.iter().skip(1).copied().collect();
     starts.sort();
     for s in starts {
         let best = unused
@@ -377,35 +548,29 @@ fn oracle(sc: &Scenario, run: &Run, ex: &mut Exec) {
     }
     // every delay whose +20 % window closed before the end must have been started
     let must = 1 + sc.delays.iter().filter(|d| (**d as u128) * 6 / 5 < run.end_ms as u128).count();
-    if run.starts_ms.len() < must {
-        ex.violation("attempt-not-started", format!("{} attempts by t={}, at least {must} are due", run.starts_ms.len(), run.end_ms));
+    if attempt_starts.len() < must {
+        ex.violation("attempt-not-started", format!("{} attempts by t={}, at least {must} are due", attempt_starts.len(), run.end_ms));
     }
+    let ended = attempts_ended(sc, run);
     // first success is returned, at once
-    let first_ok = run.delivered.iter().find(|d| d.2 == Res::Ok);
-    if run.ok_not_returned {
-        ex.violation("success-not-returned", "a successful attempt completed and the lookup kept running");
-    }
+    let first_ok = ended.iter().filter(|e| !e.ok_calls.is_empty()).min_by_key(|e| e.key);
     match (&run.outcome, first_ok) {
-        (Outcome::Ok(k), Some((t, k0, _))) => {
-            if k != k0 || *t != run.end_ms {
-                ex.violation("not-first-success", format!("returned call {k} at {}, first success was call {k0} at {t}", run.end_ms));
+        (Outcome::Ok(calls), Some(e)) => {
+            if *calls != e.ok_calls || e.key.0 != run.end_ms {
+                ex.violation("not-first-success", format!("returned {calls:?} at {}, first success was {:?} at {}", run.end_ms, e.ok_calls, e.key.0));
             }
         }
-        (Outcome::Ok(k), None) => ex.violation("ok-without-success", format!("returned call {k}")),
-        (_, Some((t, k0, _))) => ex.violation("success-not-returned", format!("call {k0} succeeded at {t}, outcome {:?}", run.outcome)),
+        (Outcome::Ok(calls), None) => ex.violation("ok-without-success", format!("returned {calls:?}")),
+        // a success that ended exactly at a pending cut-off instant is still delivered within that instant
+        (other, Some(e)) => ex.violation("success-not-returned", format!("attempt with {:?} succeeded at {}, outcome {other:?}", e.ok_calls, e.key.0)),
         _ => {}
     }
     // an error carries every attempt's error
     if let Outcome::Err(codes) = &run.outcome {
-        if run.starts_ms.len() != n + 1 || codes.len() != n + 1 {
-            ex.violation("error-before-all-attempts", format!("{} errors, {} attempts, {} delays", codes.len(), run.starts_ms.len(), n));
+        if attempt_starts.len() != n + 1 || codes.len() != n + 1 || ended.len() != n + 1 {
+            ex.violation("error-before-all-attempts", format!("{} errors, {} attempts ({} ended), {} delays", codes.len(), attempt_starts.len(), ended.len(), n));
         }
-        let mut want: Vec<String> = (0..run.starts_ms.len())
-            .map(|k| match run.delivered.iter().find(|d| d.1 == k) {
-                Some((_, _, Res::Err(c))) => c.clone(),
-                _ => "to".to_string(),
-            })
-            .collect();
+        let mut want: Vec<String> = ended.iter().map(|e| e.code.clone()).collect();
         let mut got = codes.clone();
         want.sort();
         got.sort();
@@ -451,17 +616,24 @@ fn gen_delay(rng: &mut Rng, allow_huge: bool) -> u64 {
     }
 }
 
-fn gen_scripts(rng: &mut Rng, n: usize, durations: &[u64]) -> String {
+fn gen_scripts(rng: &mut Rng, kind: &str, n: usize, durations: &[u64]) -> String {
     let style = rng.below(5);
-    (0..=n)
+    let count = if kind == "both" { 2 * (n + 1) } else { n + 1 };
+    (0..count)
         .map(|k| {
             let d = if rng.chance(1, 8) { "h".to_string() } else { rng.pick(durations).to_string() };
             let ok = match style {
                 0 => false,
-                1 => k == n,
+                1 => k + 1 == count,
                 _ => rng.chance(1, 3),
             };
-            let r = if ok { "ok".to_string() } else { format!("e{k}") };
+            let r = if ok {
+                "ok".to_string()
+            } else if kind.starts_with("txt") && rng.chance(1, 4) {
+                "bad".to_string()
+            } else {
+                format!("e{k}")
+            };
             format!("{d}:{r}")
         })
         .collect::<Vec<_>>()
@@ -496,9 +668,19 @@ impl Prop for C34 {
         for d in [0u64, 1, 2, 3, 4, 5, 99, 100, u64::MAX / 41, u64::MAX] {
             out.push(format!("real v4 2000 1500 {d} 0:e0,0:ok"));
             out.push(format!("real v6 2000 1500 {d},{d} 0:e0,0:e1,0:e2"));
+            out.push(format!("real both 2000 1500 {d} 0:e0,0:e1,0:ok,0:e3"));
+            out.push(format!("real txtn 3000 4000 {d} 0:e0,0:ok"));
+            out.push(format!("real txti 3000 4000 {d},{d} 0:bad,0:e1,0:e2"));
+        }
+        // the merged lookup: an attempt ends when BOTH family lookups have, succeeds if one did
+        for (a, b) in [("ok", "ok"), ("ok", "e1"), ("e0", "ok"), ("e0", "e1")] {
+            out.push(format!("stag both 100 400 100:0 10:{a},30:{b},5:e2,5:e3"));
+            out.push(format!("stag both 100 400 100:0 30:{a},10:{b},5:ok,h:e3"));
+            out.push(format!("stag both 20 400 100:0 h:{a},10:{b},5:e2,5:e3"));
         }
         while out.len() < n {
-            let v = if rng.bool() { "v4" } else { "v6" };
+            let v = *rng.pick(&["v4", "v6", "both", "both", "txtn", "txti"]);
+            let txt = v.starts_with("txt");
             let nd = match rng.below(8) {
                 0 => 0,
                 1 => rng.range(5, 7) as usize,
@@ -507,21 +689,21 @@ impl Prop for C34 {
             if rng.chance(1, 6) {
                 // real random source: answers are immediate or never, timeouts after every start
                 let delays: Vec<u64> = (0..nd).map(|_| gen_delay(rng, false)).collect();
-                let tmo = 1000 + rng.below(100);
-                let horizon = 1500 + rng.below(100);
-                let scripts = gen_scripts(rng, nd, &[0]);
+                let tmo = if txt { 3000 } else { 1000 + rng.below(100) };
+                let horizon = if txt { 4000 } else { 1500 + rng.below(100) };
+                let scripts = gen_scripts(rng, v, nd, &[0]);
                 out.push(format!("real {v} {tmo} {horizon} {} {scripts}", fmt_list(&delays)));
                 continue;
             }
             let delays: Vec<String> = (0..nd).map(|_| format!("{}:{}", gen_delay(rng, true), gen_r(rng))).collect();
-            let tmo = *rng.pick(&[1u64, 5, 30, 60, 100, 150, 400, 3000]);
-            let horizon = *rng.pick(&[0u64, 50, 150, 400, 400, 800, 800, 4000]);
+            let tmo = if txt { 3000 } else { *rng.pick(&[1u64, 5, 30, 60, 100, 150, 400, 3000]) };
+            let horizon = if txt { *rng.pick(&[150u64, 400, 800, 3100, 3500, 4000]) } else { *rng.pick(&[0u64, 50, 150, 400, 400, 800, 800, 4000]) };
             let durs: &[u64] = match rng.below(3) {
                 0 => &[0, 0, 1, 5, 20],
                 1 => &[0, 10, 30, 60, 100, 150],
                 _ => &[0, 1, 2, 3, 40, 80, 120, 399, 400],
             };
-            let scripts = gen_scripts(rng, nd, durs);
+            let scripts = gen_scripts(rng, v, nd, durs);
             out.push(format!("stag {v} {tmo} {horizon} {} {scripts}", if delays.is_empty() { "-".into() } else { delays.join(",") }));
         }
         // malformed-ish stream: script list shorter than the attempts is not generated — the
@@ -562,14 +744,20 @@ impl Prop for C34 {
                 let sc = parse_scenario(&toks[1..], toks[0] == "stag");
                 let run = run_scenario(&sc);
                 let res = match &run.outcome {
-                    Outcome::Ok(k) if sc.scripted_rng => format!("ok {k} {}", run.end_ms),
-                    Outcome::Ok(k) => format!("ok {k}"),
+                    Outcome::Ok(k) if sc.scripted_rng => format!("ok {} {}", k.iter().map(|c| c.to_string()).collect::<Vec<_>>().join("."), run.end_ms),
+                    Outcome::Ok(k) => format!("ok {}", k.iter().map(|c| c.to_string()).collect::<Vec<_>>().join(".")),
                     Outcome::Err(c) if sc.scripted_rng => format!("err {} {}", fmt_list(c), run.end_ms),
                     Outcome::Err(c) => format!("err {}", fmt_list(c)),
                     Outcome::Pending => "pending".to_string(),
                 };
-                let out = if sc.scripted_rng { format!("calls {} {res}", fmt_list(&run.starts_ms)) } else { res };
-                let mut ex = Exec::new(out).tag(toks[0].to_string());
+                let out = if sc.kind == Kind::Both && tie_suspect(&sc, &run) {
+                    "tie-suspect".to_string()
+                } else if sc.scripted_rng {
+                    format!("calls {} {res}", fmt_list(&run.starts_ms))
+                } else {
+                    res
+                };
+                let mut ex = Exec::new(out).tag(toks[0].to_string()).tag(format!("entry-{}", toks[1]));
                 oracle(&sc, &run, &mut ex);
                 ex.nontrivial = run.starts_ms.len() > 1;
                 ex.tags.push(
